@@ -97,7 +97,10 @@ pattern_notes: Pattern = re.compile(
     re.IGNORECASE | re.DOTALL,
 )
 
-pattern_to_sbml: Pattern = re.compile(r"([^0-9_a-zA-Z])")
+# Besides the characters that are not allowed in an SId, the underscore that would
+# make a literal "__<digits>" of an identifier look like an escaped character (also
+# together with the underscore of the prefix) is escaped.
+pattern_to_sbml: Pattern = re.compile(r"([^0-9_a-zA-Z]|_(?=_[0-9])|^_(?=[0-9]))")
 
 pattern_from_sbml: Pattern = re.compile(r"__(\d+)__")
 
